@@ -981,3 +981,58 @@ let set_test tf c =
 
 let diagnostics_tf grouping rs excl_test tf cs =
   diagnostics grouping rs excl_test (map (set_test tf) cs)
+
+type str = nat list
+
+(** val has_prefix : str -> str -> bool **)
+
+let rec has_prefix s = function
+| [] -> true
+| b :: p' ->
+  (match s with
+   | [] -> false
+   | a :: s' -> (&&) (Nat.eqb a b) (has_prefix s' p'))
+
+(** val comma : nat **)
+
+let comma =
+  S (S (S (S (S (S (S (S (S (S (S (S (S (S (S (S (S (S (S (S (S (S (S (S (S
+    (S (S (S (S (S (S (S (S (S (S (S (S (S (S (S (S (S (S (S
+    O)))))))))))))))))))))))))))))))))))))))))))
+
+(** val split_comma : str -> str -> str list **)
+
+let rec split_comma s cur =
+  match s with
+  | [] -> (rev cur) :: []
+  | c :: s' ->
+    if Nat.eqb c comma
+    then (rev cur) :: (split_comma s' [])
+    else split_comma s' (c :: cur)
+
+(** val includes_of_flag : str -> str list **)
+
+let includes_of_flag flag = match flag with
+| [] -> [] :: []
+| _ :: _ -> split_comma flag []
+
+(** val excludes_of_flag : str -> str list **)
+
+let excludes_of_flag flag = match flag with
+| [] -> []
+| _ :: _ -> split_comma flag []
+
+(** val is_pkg_in_scope : str list -> str list -> str -> bool **)
+
+let rec is_pkg_in_scope inc exc path =
+  match inc with
+  | [] -> false
+  | i :: inc' ->
+    if has_prefix path i
+    then negb (existsb (has_prefix path) exc)
+    else is_pkg_in_scope inc' exc path
+
+(** val in_scope_flags : str -> str -> str -> bool **)
+
+let in_scope_flags inc_flag exc_flag path =
+  is_pkg_in_scope (includes_of_flag inc_flag) (excludes_of_flag exc_flag) path
